@@ -109,6 +109,10 @@ def run(ctx):
         settings = [(2, 40000, 0), (3, 25000, 0)] if ctx.quick else [(1, 40000, 0), (2, 40000, 0), (3, 25000, 0), (4, 16384, 0), (8, 20000, 0)]
         if ii % 2 == 0 or not ctx.quick:
             settings.append((2, 30000, 1))
+        if iname in ("rand", "text"):
+            # just below 2^14: the Compressed Size of an incompressible Block needs a longer VLI than block_size itself
+            # (the Block Header must have been reserved for the biggest possible Compressed Size)
+            settings.append((2, 16381 + ii % 3, 0))
         for (nw, bs, to) in settings:
             g = dict(inp=iname, path=path, data=data, nw=nw, bs=bs, timeout=to, runs=[])
             groups.append(g)
@@ -132,6 +136,13 @@ def run(ctx):
                     a3 = [(rng.choice("fb"), o) for o in acts3]
                     p3 = dict(p, seed=seed + 13, endafter=-1, updates=1, slicing=1, actions=",".join("%s%d" % a for a in a3))
                     jobs.append((g, p3, a3))
+                if k in (1, 2) and total > 1000:
+                    # one allocation fails somewhere (initialisation, thread creation, a worker's Block encoder, an
+                    # output buffer, the Index ...): LZMA_MEM_ERROR or a complete correct Stream, never a hang, a race
+                    # or a "successful" Stream that lost data.  Not trace-validated (the model has worker failures only).
+                    for j in range(2 if ctx.quick else 6):
+                        jobs.append((g, dict(p, seed=seed + 29 + j, endafter=-1, failalloc=rng.randint(1, 90), watchdog=12,
+                                             **({"asan": 1} if j % 2 else {})), acts))
                 if k == 1 and total > 1000:
                     # the same handle given to lzma_stream_encoder_mt() again without lzma_end(), then a full encode
                     p2 = dict(p, seed=seed + 7, endafter=-1, reinit_after=rng.randint(1, 6), watchdog=12)
@@ -148,6 +159,16 @@ def run(ctx):
                     if rng.random() < 0.4:
                         p5["reinit_blocksize"] = nbs
                     jobs.append((g, p5, acts))
+    # every allocation ordinal of one (thorough: three) slicing run(s): count them first, then fail each in turn
+    sweep_groups = [g for g in groups if g["inp"] == "text" and not g.get("big")][:1 if ctx.quick else 3]
+    for g in sweep_groups:
+        p0 = dict(threads=g["nw"], blocksize=g["bs"], timeout=g["timeout"], seed=ctx.seed * 1000 + 777, perturb=0, slicing=1, endafter=-1)
+        r0 = mtlib.run_driver(exe_asan, "enc", g["path"], os.path.join(wd, "cnt.out"), os.path.join(wd, "cnt.tr"), failalloc=10 ** 9, **p0)
+        mm = re.search(r"allocs=(\d+)", r0["stdout"])
+        if not mm:
+            raise MachineryError("could not count the allocations of a threaded encoder run: %r" % r0["stdout"][-200:])
+        for kk in range(1, int(mm.group(1)) + 1):
+            jobs.append((g, dict(p0, failalloc=kk, watchdog=12, actions="", **({"asan": 1} if kk % 2 else {})), []))
     def exec_job(idx):
         g, params, acts = jobs[idx]
         p = {k: v for k, v in params.items() if not (k == "actions" and v == "") and k != "asan"}
@@ -159,12 +180,14 @@ def run(ctx):
         results = list(ex.map(exec_job, range(len(jobs))))
     ref_cache = {}
     fallback_runs = [0]
+    failruns = [0, 0]
     for idx, res, out in results:
         g, params, acts = jobs[idx]
         label = "%s:T%d:bs%d:to%d:seed%d:%s%s" % (g["inp"], g["nw"], g["bs"], g["timeout"], params["seed"], params["actions"],
                                                   (":reinit%d" % params["reinit_after"] if "reinit_after" in params else "") +
                                                   (":bs%d" % params["reinit_blocksize"] if "reinit_blocksize" in params else "") +
                                                   (":thr%d" % params["reinit_threads"] if "reinit_threads" in params else "") +
+                                                  (":failalloc%d" % params["failalloc"] if "failalloc" in params else "") +
                                                   (":asan" if params.get("asan") else ""))
         # block_size in effect for the Stream that is finished (the run may end before the re-initialisation is due)
         did_reinit = any(e["e"] == "Reinited" for e in res["events"])
@@ -211,6 +234,19 @@ def run(ctx):
             violation("crash:%s" % g["inp"], "driver exit %s\n%s" % (res["rc"], res["stderr"][-3000:]), rp)
             continue
         init_ev, evs = mtlib.fold(res["events"])
+        if "failalloc" in params:
+            rets_f = [e for e in evs if e["e"] == "Ret"]
+            last_f = rets_f[-1]["a"] if rets_f else (init_ev or {}).get("a")
+            if last_f == lz.STREAM_END:
+                st = coders.decode_with("lzma_stream_decoder", (lz.UINT64_MAX, 0), out, out_cap=len(g["data"]) + 4096)
+                if st["ret"] != lz.STREAM_END or st["out"] != g["data"]:
+                    violation("failalloc:finished-but-wrong:%s" % g["inp"], "with one failed allocation the encoder reported "
+                              "LZMA_STREAM_END but the output does not decode to the input (%s)" % label, rp)
+            elif last_f != lz.MEM_ERROR:
+                violation("failalloc:ret:%s" % g["inp"], "with one failed allocation the encoder ended with %s, neither "
+                          "LZMA_MEM_ERROR nor LZMA_STREAM_END (%s)" % (last_f, label), rp)
+            failruns[0 if last_f == lz.MEM_ERROR else 1] += 1
+            continue
         if g.get("big"):
             fallback_runs[0] += any(e["e"] == "WEncCode" and e["d"] == 1 for e in evs)
         if any(e["e"] in ("OVERFLOW", "TOOMANYCALLS") for e in evs):
@@ -288,6 +324,7 @@ def run(ctx):
     if not fallback_runs[0]:
         raise MachineryError("no run reached the incompressible-Block fallback of worker_encode (vacuous bigrand group)")
     ctx.log("incompressible fallback reached in %d run(s)" % fallback_runs[0])
+    ctx.log("allocation-failure runs: %d ended with LZMA_MEM_ERROR, %d completed" % tuple(failruns))
     def validate_group(g):
         if not g["runs"]:
             return g, None
